@@ -13,7 +13,7 @@ ID = 'C10'
 RULE = ('k in 1..4 operands with disjoint ids on the concatenation axis (plus a non-disjoint stream that must raise '
         'DisjointIDError), both axes, other-axis ids drawn per operand from a shared pool with the patterns '
         'identical / permuted / partially missing / disjoint / random, 1..4 x 1..5 blocks, values counts/signed/dyadic/big, '
-        'metadata on neither/either/both axes per operand (entries may be empty, the same other-axis id may carry '
+        'some operands emptied on one axis by filter([]) (0 x n, m x 0), metadata on neither/either/both axes per operand (entries may be empty, the same other-axis id may carry '
         'different metadata in different operands), every operand built from a layout recipe; calls: '
         't.concat(list), t.concat(table), t.concat(list) with the default axis, biom.concat(list); '
         'for list operands the call is repeated with the same list object (same receiver, and a second receiver '
@@ -85,6 +85,10 @@ def gen_case(rng, k=None, pattern=None, axis=None, call=None, clash=None):
         spec['type'] = rng.choice(T.TYPES)
         spec['layout'] = T.rand_layout(rng, len(spec['oids']), len(spec['sids']))
         specs.append(spec)
+    if rng.random() < 0.2:          # operands emptied on one axis by a filter (0 x n or m x 0)
+        for spec in specs:
+            if rng.random() < 0.5:
+                spec['emptied'] = rng.choice(AXES)
     clash = (rng.random() < 0.12 and k >= 2) if clash is None else clash
     if clash and k >= 2:
         i, j = sorted(rng.sample(range(k), 2))
@@ -117,6 +121,7 @@ def other_receiver(spec, axis, rng=None):
     b = copy.deepcopy(spec)
     key = 'oids' if axis == 'observation' else 'sids'
     b[key] = ['zz' + i for i in b[key]]
+    b.pop('emptied', None)
     if rng is not None:
         b['type'] = rng.choice(T.TYPES)
     return b
@@ -137,6 +142,24 @@ def gen(rng, tier):
 
 
 # ---------------------------------------------------------------- implementation
+def build(spec):
+    """tables.build, then (optionally) every id of one axis removed by a filter: a 0 x n or m x 0 operand that
+    still owns the ids (and metadata) of its other axis"""
+    t = T.build(spec)
+    if spec.get('emptied'):
+        t = t.filter([], axis=spec['emptied'], inplace=False)
+    return t
+
+
+def content(spec):
+    c = T.spec_content(spec)
+    if spec.get('emptied') == 'observation':
+        c['oids'], c['mat'], c['omd'] = [], [], None
+    elif spec.get('emptied') == 'sample':
+        c['sids'], c['mat'], c['smd'] = [], [[] for _ in c['oids']], None
+    return c
+
+
 def _status(f):
     try:
         return ['ok', T.norm_snap(T.snapshot(f()))]
@@ -148,8 +171,8 @@ def run_impl(case):
     """the call under test; then, for list operands, the same call again with the SAME list object and a
     call with another receiver and that list object; the caller's list must stay what it was"""
     try:
-        ts = [T.build(s) for s in case['specs']]
-        other = T.build(case['other']) if case.get('other') else None
+        ts = [build(s) for s in case['specs']]
+        other = build(case['other']) if case.get('other') else None
     except Exception as e:
         return ['crash-build', type(e).__name__, str(e)[:200]]
     _INFO[id(case)] = [T.layout_info(t) for t in ts]
@@ -179,8 +202,8 @@ def _coder(case):
 
 def encode(case):
     cd = _coder(case)
-    return [AXES.index(case['axis']), [cd.table(T.snapshot(T.build(s))) for s in case['specs']],
-            [cd.table(T.snapshot(T.build(case['other'])))] if case.get('other') else []]
+    return [AXES.index(case['axis']), [cd.table(T.snapshot(build(s))) for s in case['specs']],
+            [cd.table(T.snapshot(build(case['other'])))] if case.get('other') else []]
 
 
 def _dec(tree, cd):
@@ -216,7 +239,7 @@ def oracle(case, obs):
 def oracle_one(specs_in, axis, obs):
     fails = []
     case = {'axis': axis}
-    specs = [T.spec_content(s) for s in specs_in]
+    specs = [content(s) for s in specs_in]
     ax = 'oids' if case['axis'] == 'observation' else 'sids'
     ot = 'sids' if case['axis'] == 'observation' else 'oids'
     axmd = 'omd' if case['axis'] == 'observation' else 'smd'
@@ -282,6 +305,9 @@ def classify(case):
     axmd = 'omd' if case['axis'] == 'observation' else 'smd'
     have = [s[axmd] is not None for s in case['specs']]
     tags.append('axis-md:' + ('all' if all(have) else 'some' if any(have) else 'none'))
+    for s in case['specs']:
+        if s.get('emptied'):
+            tags.append('emptied:' + ('axis' if s['emptied'] == case['axis'] else 'other-axis'))
     for li in _INFO.get(id(case), []):
         tags.append('layout:' + li)
     return tags
